@@ -306,7 +306,19 @@ def path_in_project(context: BaseLintContext) -> str:
     file_path = getattr(context, "file_path", None)
     if not file_path:
         return ""
-    project_root = get_metadata(context).get("_project_root")
+    return relative_to_project(file_path, get_metadata(context).get("_project_root"))
+
+
+def relative_to_project(file_path: str | Path, project_root: str | Path | None) -> str:
+    """Path of a file as seen from the project root (see path_in_project).
+
+    Args:
+        file_path: File path in any spelling
+        project_root: Project root directory, or None when unknown
+
+    Returns:
+        Project-relative POSIX path with a leading slash, or the original path string
+    """
     if project_root is not None:
         try:
             relative = Path(file_path).resolve().relative_to(Path(project_root).resolve())
